@@ -12,1172 +12,1239 @@ Definition show_fres (r : fres) : string :=
   end.
 Definition check (rs : list rune) : string := digest (show_fres (format_res rs)).
 Definition full (rs : list rune) : string := show_fres (format_res rs).
-Eval vm_compute in ("<<<M266>>>" ++ check (runes_of_ascii "packet metadata { repeat f64 // " ++ [128512]%N ++ runes_of_ascii " emoji
-Foo , repeat
-Logon
-    f32a`
-` , @calculatedFrom( ""1"" ) repeat
-    uint8 // trailing space 
-calculatedFrom `u8 x,`
-, char[]
-    packetx , // packet A { u8 x, }
-@calculatedFrom(
-""abc"" ) Pad
-@lengthOf(msg_type  )`line1
-line2` ,
-@rightPad
-(
-' ' )
-tag`" ++ [233]%N ++ runes_of_ascii "` ,@tag( 10
-    /// triple
-    )u8x
-@calculatedFrom( ""CRC32"" ),match
-// trailing space 
-// trailing space 
-metadata
-as msg_type
-//
-// " ++ [27880; 37322]%N ++ runes_of_ascii "
-{[
-""\n"" //x
-, 0123456789// c
-] : options1
-,
-    ""\n""
-    :
-    float ,},} packet
-// " ++ [128512]%N ++ runes_of_ascii " emoji
-// " ++ [128512]%N ++ runes_of_ascii " emoji
-MetaDataX {string string_ `doc`
-,
-@rightPad
-    (
-    '0' ) zchar[
-// " ++ [128512]%N ++ runes_of_ascii " emoji
-// `tick` ""quote"" 'q'
-00 ]
-zchar `a\`
-,} options {leftPad = 0 float = 4294967296 ;
-}// `tick` ""quote"" 'q'
-root packet body{ @calculatedFrom( ""1"" ) @lengthOf( int ) match float as Z9_  {
-// packet A { u8 x, }
-// trailing space 
-42
-: x
-""packet"" :// `tick` ""quote"" 'q'
-matchKey	, """ ++ [28040; 24687]%N ++ runes_of_ascii """
-/// triple
-// packet A { u8 x, }
-: o ,	255 :	float }
-, @tag( 0123456789 ) match	calculatedFrom as // @lengthOf(
-trueish { [ ""packet"" , ""`tick`"" //x
-,	""" ++ [233]%N ++ runes_of_ascii "t" ++ [233]%N ++ runes_of_ascii """ ] : MetaDataX 4294967296 :trueish
-, 3 :
-// trailing space 
-// packet A { u8 x, }
-i64_ , 0123456789 :
-f32a , [ 7, //	t
-10	,	""CRC32"" ,	""x y"" , ""\n""
-    // `tick` ""quote"" 'q'
-    , ""CRC32""
-    , ""`tick`""
-    ]// `tick` ""quote"" 'q'
-: body , }, char[ 1//
-]Foo // " ++ [128512]%N ++ runes_of_ascii " emoji
-, @rightPad( ' ' ) @calculatedFrom( // " ++ [27880; 37322]%N ++ runes_of_ascii "
-""a	b""
-) repeat string_ { repeat Logon // @lengthOf(
-,	Z9_	i8i8 ,match Z9_ as
-    A {[ 42
-    ] :Logon , [ ""CRC32"" , 1 , ""a\""b"" , 4294967296 , 0, ""\" ++ [233]%N ++ runes_of_ascii """ ] : roots ""a\""b"" : MetaDataX , 255
-: _x
-,
-    65535
-    :
-    rootA , }	,match _x as Foo {[ 255
-    , """ ++ [28040; 24687]%N ++ runes_of_ascii """ ,// packet A { u8 x, }
-""CRC32"" ,
-    // c
-    """ ++ [233]%N ++ runes_of_ascii "t" ++ [233]%N ++ runes_of_ascii """ ,
-    ""abc"" ] : len""a\\""
-: Pad  0
-: falsey,3 :	u128
-    ,
-} ,// a // b
-} , repeat // packet A { u8 x, }
-options1 int `{ , }`
-// packet A { u8 x, }
-//
-,
-}")).
-Eval vm_compute in ("<<<M1368>>>" ++ check (runes_of_ascii "// top
-options
-    // c0
-{ // c1a
-  // c1b
-StringPrefixLenType // c2
-= u8 // c4
-; ArrayPrefixLenType = u8 ; FixedStringPadFromLeft
-    // c10
-= // c11
-false // c12a
-  // c12b
-;
-    // c13
-FixedStringPadChar // c14
-= // c15a
-  // c15b
-' ' ; // c17
-} // c18
-packet
-    // c19
-Ack // c20
-{
-    // c21
-char[]
-    // c22
-tag7 // c23
-, } packet Reject
-    // c27
-{
-    // c28
-InSym61 // c29
-{
-    // c30
-repeat Ack
-    // c32
-,
-    // c33
-zchar[
-    // c34
-4 // c35a
-  // c35b
-] // c36
-f1 // c37a
-  // c37b
-, // c38
-} ,
-    // c40
-} // c41
-packet Logout // c43a
-  // c43b
-{
-    // c44
-char[ // c45a
-  // c45b
-4
-    // c46
-] clOrdID ,
-    // c49
-} root // c51a
-  // c51b
-packet // c52a
-  // c52b
-Cancel { // c54a
-  // c54b
-@leftPad
-    // c55
-( ' ' // c57
-)
-    // c58
-char[
-    // c59
-10
-    // c60
-] price
-    // c62
-, // c63
-u8 x // c65a
-  // c65b
-, // c66
-u32 venue @lengthOf( // c69a
-  // c69b
-Body )
-    // c71
-,
-    // c72
-match x // c74
-as
-    // c75
-Body // c76
-{ // c77a
-  // c77b
-[ // c78a
-  // c78b
-92 // c79
-, 175 // c81
-] // c82a
-  // c82b
-: // c83a
-  // c83b
-Logout // c84a
-  // c84b
-, // c85a
-  // c85b
-26 : Reject , 144 : Ack // c92a
-  // c92b
-, // c93
-} // c94a
-  // c94b
-, u16 // c96a
-  // c96b
-count // c97
-@calculatedFrom( ""CRC32"" // c99
-) , // c101
-} ")).
-Eval vm_compute in ("<<<M1376>>>" ++ check (runes_of_ascii "// top
-options
-    // c0
-{ // c1a
-  // c1b
-LittleEndian
-    // c2
-= true // c4a
-  // c4b
-; // c5a
-  // c5b
-StringPrefixLenType = u64 // c8a
-  // c8b
-; // c9a
-  // c9b
-ArrayPrefixLenType // c10
-= u16 // c12
-; // c13
-FixedStringPadFromLeft =
-    // c15
-false ; // c17
-FixedStringPadChar =
-    // c19
-' '
-    // c20
-; } // c22
-packet Logon // c24
-{ // c25
-zchar[ // c26a
-  // c26b
-5 // c27
-] Side2 , }
-    // c31
-root // c32a
-  // c32b
-packet Logout
-    // c34
-{ // c35
+Eval vm_compute in ("<<<M23>>>" ++ check (runes_of_ascii "root packet
+u128 { @lengthOf(
+    A// " ++ [27880; 37322]%N ++ runes_of_ascii "
+)pack@calculatedFrom( ""`tick`"" ),
 repeat
-    // c36
-i64 // c37
-Tail , // c39
-Logon
-    // c40
-,
-    // c41
-repeat i16 // c43a
-  // c43b
-OrderId // c44a
-  // c44b
-, // c45
-char[] // c46
-venue // c47
-, uint64 // c49a
-  // c49b
-x ,
-    // c51
-repeat i16
-    // c53
-count
-    // c54
-, // c55
-u8 Flags
-    // c57
-, // c58a
-  // c58b
-match // c59
-Flags as // c61
-Body
-    // c62
-{ 25
-    // c64
-: Logon // c66
-, } // c68
-, u16 // c70a
-  // c70b
-Qty // c71
-@calculatedFrom( // c72a
-  // c72b
-""CRC32"" // c73
-) // c74a
-  // c74b
-,
-    // c75
-}
-    // c76
-")).
-Eval vm_compute in ("<<<M379>>>" ++ check (runes_of_ascii "root
-    packet i64_ { trueish ,
-@calculatedFrom(""abc"") @tag( 7 )
-    // c
-    int16
-    asx
-, @calculatedFrom( ""a\\"" ) float32 crc
-@lengthOf(
-Foo ) ,	@tag( // `tick` ""quote"" 'q'
-42 // c
-) zchar[
-// c
-// packet A { u8 x, }
-7 ] asx @lengthOf( calculatedFrom) `// not a comment` , //
-repeat zchar[ 1]// a // b
-As ,	chars `two words` , @calculatedFrom( ""1"" )
-@tag(
-    // `tick` ""quote"" 'q'
-    0123456789 ) @leftPad ('0')
-    repeat
-    char[] BodyLength `tab	here`, } MetaData u128 // packet A { u8 x, }
-{
-u16 i64_
-,
-    float32 asx//
-`two words` ,//
-i64
-leftPad, zchar[ 00 // `tick` ""quote"" 'q'
-] _x
-    , //
-} MetaData chars
-    //
-    {Foo crc
-`say ""hi""` , uint8 u`two words` , // " ++ [128512]%N ++ runes_of_ascii " emoji
-f32
-pack
-`crlf
-line`, string _x `" ++ [233]%N ++ runes_of_ascii "`  , } packet x_y_z{ } options { calculatedFrom = ""CRC32"" crc
-    = uint16 ; u =
-false
-    Foo
-=
-    char  } // " ++ [128512]%N ++ runes_of_ascii " emoji")).
-Eval vm_compute in ("<<<M1515>>>" ++ check (runes_of_ascii "// top
-
-	root 
-        // c0
-	  packet 
-
-// c1
-
-_x
-    // c2
-
-{
-// c3
-
-	match
-	// c4
-    Foo
-        // c5
-as
-    // c6
-Z9_
-    // c7
-  	{
-// c8
-""a	b""
-// c9
-  	:
-    // c10
-    Pad
-// c11
-
-,
-
-// c12
-		}
-	// c13
-  , 
-        // c14
-	  repeat 
-
-    // c15
-      x 
-
-    // c16
-    `line1
-line2`
-	// c17
-  ,  
-      // c18
-  	@rightPad 
-	    // c19
-    (
-// c20
-  	' '
-// c21
-
-) 
-	    // c22
-
-  @calculatedFrom(  
-  // c23
-
-""a\\""
-
-// c24
-	  )
-	// c25
-		metadata
-    // c26
-	MetaDataX
-    // c27
-	,
-    // c28
-		@tag(  
-      // c29
-  0 
-    // c30
-    ) 
-    // c31
-  Logon
-	// c32
-    int
-    // c33
-    	`` 
-	    // c34
-		, 
-      // c35
-  	} 
-    // c36
-	  options
-
-    // c37
-
-{ 
-// c38
-  T 
-    // c39
-		= 
-        // c40
-	'\x00'
-// c41
-
-} 
-// c42
-")).
-Eval vm_compute in ("<<<M52>>>" ++ check (runes_of_ascii "  MetaData
+    char[]	As `crlf
+line`
     // " ++ [27880; 37322]%N ++ runes_of_ascii "
-    packetx { zchar[ 7 ] leftPad
-`// not a comment` ,	}	packet i64_{@calculatedFrom(
-"""" )
-// trailing space 
-// c
-@lengthOf(
-x_y_z ) @tag( 00
-)
-repeatCount
-    // packet A { u8 x, }
-    @calculatedFrom(""1"" ), } packet falsey { int16
-_x
-@calculatedFrom(	""it's"") , } // @lengthOf(
-root
-packet matchKey
-    {repeat u32  Pad  `" ++ [233]%N ++ runes_of_ascii "`, zchar[ 7 ]
-    leftPad
-,match chars as lengthOf
-{ 1 :
-o
-    42 : chars
-// trailing space 
-// c
+    , @tag( 4294967296 ) @rightPad
+('\x00'	) @calculatedFrom( ""a\\"" ) tag { repeat string o
+    ,char[]  calculatedFrom `u8 x,`
 ,
-}//x
-, repeat
-zchar[
-    255]
-a1, matchKey //
-Packet
-    // `tick` ""quote"" 'q'
-    ,
-f32
-    tag
-    ,
-// @lengthOf(
-// trailing space 
-@calculatedFrom(  ""a\""b"" ) @leftPad( ' ' ) @lengthOf(
-T) stringy
-@lengthOf( o) ,packetx  i64_ ,}
-/// triple
-")).
-Eval vm_compute in ("<<<M164>>>" ++ check (runes_of_ascii "//x
-packet x { @lengthOf(
-string_ )
-// `tick` ""quote"" 'q'
-// trailing space 
-msg_type{
-int // a // b
-@lengthOf( chars
-    )
-//x
-// " ++ [27880; 37322]%N ++ runes_of_ascii "
-`" ++ [28040; 24687; 31867; 22411]%N ++ runes_of_ascii "` , int`a\`  , }
-    ,uint32 chars  @calculatedFrom(
-""`tick`""
-    )
-    `
-` , @lengthOf( packetx // trailing space 
-)
-match
-    metadata as x_y_z
-{ 65535	: x ,007
-// `tick` ""quote"" 'q'
-// " ++ [128512]%N ++ runes_of_ascii " emoji
-: u [ 7 ,
-""// no comment""	,  """ ++ [28040; 24687]%N ++ runes_of_ascii """] :x ""a\\""
-: MetaDataX,0123456789 : lengthOf
-10 :
-//
-// `tick` ""quote"" 'q'
-float  }
-    ,
-    u16 Logon@calculatedFrom(""x y"") `tab	here`
-//	t
-//
-,@lengthOf(Foo ) zchar /// triple
-, }  packet
-    tag { } root packet
-x_y_z{ } MetaData int {
-    string
-A `" ++ [233]%N ++ runes_of_ascii "` ,
-}
-")).
-Eval vm_compute in ("<<<M1678>>>" ++ check (runes_of_ascii "// top
-options {
-    // c1a
-    // c1b
-    LittleEndian = true;
-}
-
-// c6
-packet Logon {
-    u8 x,// c12
-}// c13a
-
-// c13b
-packet Logout {
-    // c16a
-    // c16b
-    u16 reason,
-}// c20
-
-root packet Frame {
-    u8 Kind,// c27a
-    // c27b
-    u8 Kind2,
-    match Kind as Body {
-        // c35
-        1 : Logon,
-        // c39
-        [2, 3, 4] : Logout,
-        // c49
-        100 : Logon,
-        // c53a
-        // c53b
-    },// c55
-    match Kind2 as Trailer {
-        // c60a
-        // c60b
-        0 : Logout,
-        // c64a
-        // c64b
-    },// c66
-}// c67")).
-Eval vm_compute in ("<<<M163>>>" ++ check (runes_of_ascii "options { As = // trailing space 
-zchar[ 4294967296] ; } //	t
-packet len // packet A { u8 x, }
-{ @lengthOf(
-_x) match
-    // c
-    lengthOf
-    as
-//
-// `tick` ""quote"" 'q'
-string_// c
-{
-    [ 4294967296 ]: i64_ ""a	b"": o
-,
-}
-, leftPad
-    @calculatedFrom( ""`tick`""	)
-// trailing space 
-// `tick` ""quote"" 'q'
-,@leftPad( '\x00' ) repeat charz /// triple
-msg_type
-,
-repeat i8
-Foo , }packet msg_type {
-//x
-// @lengthOf(
-@leftPad (
-'0'
-)
-u64 repeatCount @calculatedFrom(
-""" ++ [28040; 24687]%N ++ runes_of_ascii """) ,// packet A { u8 x, }
-}
-")).
-Eval vm_compute in ("<<<M307>>>" ++ check (runes_of_ascii "  packet	charz	{
-// " ++ [27880; 37322]%N ++ runes_of_ascii "
-/// triple
-repeat // c
-string int `" ++ [28040; 24687; 31867; 22411]%N ++ runes_of_ascii "` , @calculatedFrom( ""it's"" ) @tag(
-255 )  f64 // a // b
-asx
-,
-string
-T `doc` ,zchar[
-007 ]tag @lengthOf( //
-Z9_ )`// not a comment` , }
-options{ u= u16; }
-MetaData
-    chars
-    { i16 falsey , f64 pack,
-    char[  1
-    ]
-asx
-`it's`, char[] body ,
-// `tick` ""quote"" 'q'
-//x
-}packet leftPad { @rightPad
-(
-// @lengthOf(
-//x
-)
-repeat Pad float
-    `{ , }`
-,
-    }	options {
-    roots= true;  }
-")).
-Eval vm_compute in ("<<<M1329>>>" ++ check (runes_of_ascii "packet Frame {
-    u8 HK,
-    u8 BK,
-    u8 TK,
-    match HK as Hdr {
-        1 : HdrA,
-        2 : HdrB,
-    },
-    match BK as Body {
-        1 : BodyA,
-        2 : BodyB,
-    },
-    match TK as Trl {
-        1 : TrlA,
-    },
-}
-packet HdrA {
-    u8 a,
-}
-packet HdrB {
-    u16 b,
-}
-packet BodyA {
-    u32 c,
-}
-packet BodyB {
-    u64 d,
-}
-packet TrlA {
-    u8 e,
-}
-root packet Msg {
-    Frame,
-    u8 x,
-}
-")).
-Eval vm_compute in ("<<<M1503>>>" ++ check (runes_of_ascii "packet leftPad {
-    @tag(10)
-    @tag(007)
-    @lengthOf(a1)
-    // a // b
-    //
-    repeat metadata,
-}// " ++ [128512]%N ++ runes_of_ascii " emoji
-
-options {
-    lengthOf = """ ++ [128512]%N ++ runes_of_ascii """;
-}
-
-packet T {
-    A {
-        //
-        // `tick` ""quote"" 'q'
-        tag @calculatedFrom(""abc""),
-    },
-    @lengthOf(matchKey)
-    string Header @lengthOf(metadata),
-    leftPad @calculatedFrom(""a\""b"") `crlf
-    line`,
-}")).
-Eval vm_compute in ("<<<M1817>>>" ++ check (runes_of_ascii "root packet a1 {
-    tag Pad ``,
-}
-
-options {
-}
-
-root packet int {
-    uint64 f32a,
-}
-
-packet MetaDataX {
-    // c
-    @leftPad(' ')
-    /// triple
-    repeat uint16 Header `{ , }`,
-    // `tick` ""quote"" 'q'
-    /// triple
-}
-
-options {
-    Z9_ = false
-    falsey = ""x y"";
-    rootA = false
-    // a // b
-    Foo = true
-    lengthOf = float64
-}")).
-Eval vm_compute in ("<<<M1510>>>" ++ check (runes_of_ascii "packet zchar {
-    @calculatedFrom(""`tick`"")
-    uint32 falsey,
-}
-
-MetaData packetx {
-    string msg_type `u8 x,`,
-}
-
-packet i8i8 {
-    zchar @lengthOf(uint8x),
-}
-
-packet As {
-    zchar[4294967296] T @calculatedFrom(""abc""),
-    @tag(007)
-    repeat i16 u8x `say ""hi""`,
-    @lengthOf(u)
-    repeat uint16 u128,
-}")).
-Eval vm_compute in ("<<<M1316>>>" ++ check (runes_of_ascii "  packet
-
-    MDSnapshotZZ	{	u8
-
-a 
-, }  packet
-    OrderACK  { u16
-b, }packet
-	HTTPServerInfo	{
-string
-s
-
-    ,
-}	root
-    packet  FIXMsg
-    { u8
-KType
-,MDSnapshotZZ  , repeat
-
-    OrderACK,  match 
-KType as Body{1 :
-
-HTTPServerInfo  ,	2
-
-:OrderACK	,
-
-}
-
-    ,}")).
-Eval vm_compute in ("<<<M1696>>>" ++ check (runes_of_ascii "packet Header {
-    @calculatedFrom(""a	b"")
-    char[255] falsey `tab	here`,
-    int8 u `doc`,
-    float32 lengthOf @calculatedFrom(""a	b""),
-    @rightPad(' ')
-    @tag(3)
-    float64 asx,
-    int8 metadata @lengthOf(zchar),
-    Pad f32a,
-}")).
-Eval vm_compute in ("<<<M1303>>>" ++ check (runes_of_ascii "// top
-packet
-    // c0
-order_item // c1
-{ u8 // c3
-a // c4a
-  // c4b
-, // c5
-} root // c7
-packet
-    // c8
-new_order
-    // c9
-{ // c10
-order_item
-    // c11
-,
-    // c12
-u8 // c13a
-  // c13b
-x ,
-    // c15
-} ")).
-Eval vm_compute in ("<<<M1516>>>" ++ check (runes_of_ascii "  packet msg_type
-{ zchar[ 65535
-        /// triple
-	]  stringy 	 // `tick` ""quote"" 'q'
-
-@calculatedFrom( """ ++ [233]%N ++ runes_of_ascii "t" ++ [233]%N ++ runes_of_ascii """ 
-)
-, @tag(
-0)
-    repeat
-
-    i64_	,	}
-	    // packet A { u8 x, }")).
-Eval vm_compute in ("<<<M1786>>>" ++ check (runes_of_ascii "  MetaData
-
-    leftPad{
-chars MetaDataX
-
-,
-    }
-    packet
-	repeatCount  {char[
-
-255
-
-    ]
-uint8x 
-    // c
-  	`" ++ [233]%N ++ runes_of_ascii "` 
-, 
-}
-
-    MetaData pack
-
-{
-	As Foo ,  } ")).
-Eval vm_compute in ("<<<M501>>>" ++ check (runes_of_ascii "packet uint8x
-{ match pack
-    as msg_type	{
-    0123456789 :	float
-}
-,
-} packet //	t
-a1
-    { } options {packetx
-    = '\x00' '\x00'	; u128= ""a	b""  ; }
-")).
-Eval vm_compute in ("<<<M401>>>" ++ check (runes_of_ascii "packet uint8x
-{ { match pack
-    as msg_type	{
-    0123456789 :	float
-}
-,
-} packet //	t
-a1
-    { } options {packetx
-    = '\x00'	; u128= ""a	b""  ; }
-")).
-Eval vm_compute in ("<<<M549>>>" ++ check (runes_of_ascii "pa\cket uint8x
-{ match pack
-    as msg_type	{
-    0123456789 :	float
-}
-,
-} packet //	t
-a1
-    { } options {packetx
-    = '\x00'	; u128= ""a	b""  ; }
-")).
-Eval vm_compute in ("<<<M507>>>" ++ check (runes_of_ascii "packet uint8x
-{ match pack
-    as msg_type	{
-    0123456789 :	float
-}
-,
-} packet //	t
-a1
-    { } options {packetx
-    = '\x00'	u128 ;= ""a	b""  ; }
-")).
-Eval vm_compute in ("<<<M465>>>" ++ check (runes_of_ascii "packet uint8x
-{ match pack
-    as msg_type	{
-    0123456789 :	float
-}
-,
-} packet //	t
-
-    { } options {packetx
-    = '\x00'	; u128= ""a	b""  ; }
-")).
-Eval vm_compute in ("<<<M687>>>" ++ check (runes_of_ascii "// @lengthOf(
-packet i8i8 { u128 o , , }
-options { MetaDataX = true;
-    BodyLength =""packet"" x_y_z= 007
-crc //x
-= ""abc"" ;
-    msg_type =
-i16 }")).
-Eval vm_compute in ("<<<M707>>>" ++ check (runes_of_ascii "// @lengthOf(
-packet i8i8 { u128 o , }
-options { MetaDataX = true;
-    BodyLength =MetaData x_y_z= 007
-crc //x
-= ""abc"" ;
-    msg_type =
-i16 }")).
-Eval vm_compute in ("<<<M1825>>>" ++ check (runes_of_ascii "
-packet
-	A {
-u16
-	len
-@lengthOf( 
-body)
-
-    `a
-    b
-  c` ,
-u32 crc  @calculatedFrom(
-    ""CRC32""
-	)
-	`a
-    b
-  c`,string body
-, 
-} ")).
-Eval vm_compute in ("<<<M1270>>>" ++ check (runes_of_ascii "options {
-    LittleEndian = true;
-}
-packet B {
-    u8 a,
-    string s,
-}
-root packet P {
-    u16 L @lengthOf(B),
-    B,
-    u8 t,
-}
-")).
-Eval vm_compute in ("<<<M1857>>>" ++ check (runes_of_ascii "MetaData leftPad {
-    chars MetaDataX,
-}
-
-packet repeatCount {
-    char[255] uint8x `" ++ [233]%N ++ runes_of_ascii "`,
-}
-
-MetaData pack {
-    As Foo,
-}
-// c")).
-Eval vm_compute in ("<<<M1517>>>" ++ check (runes_of_ascii "MetaData 
-zchar
-    {roots
-	A 
-, char[]
-falsey `line1
-line2`
-	, 
-
+u
     // " ++ [128512]%N ++ runes_of_ascii " emoji
+    { u64
+    body
+    `say ""hi""`
+    ,	repeat f32
+    int ,repeat rootA { repeat string i64_ `it's`
+    //	t
+    ,As
+    @calculatedFrom(
+"""" ) `" ++ [233]%N ++ runes_of_ascii "`
+    ,tag `" ++ [233]%N ++ runes_of_ascii "`, } , zchar[ 65535 ] trueish
+    , } ,}	, @lengthOf( Logon )i8// @lengthOf(
+Packet , @tag(
+3 ) @lengthOf( chars ) @tag( 10 ) u8
+    Foo ,
+    // " ++ [128512]%N ++ runes_of_ascii " emoji
+    i64_
+    _x`crlf
+line`,
+    u32
+    A , match a1 as i8i8 { [""1"" ,4294967296
+]  :
+a1, """" :a1	, 007
+: a1, [ ""CRC32""
+]
+: Header
+    }
+    , int64
+As , } root	packet
+chars { x_y_z {
+    // a // b
+    u32 u128 ,
+float64 metadata
+    , trueish
+    @calculatedFrom(""it's"" ) `u8 x,`,
+    } , @calculatedFrom( ""\n"" )
+repeat
+    // c
+    Foo
+pack, string
+    asx
+@lengthOf( x_y_z ) `a\` ,
+    uint8 // `tick` ""quote"" 'q'
+trueish @calculatedFrom( ""a\""b""
+)  , @leftPad
+( ) char[
+007 ] a1
+    @lengthOf(
+a1)
+    `crlf
+line`
+,rootA msg_type, zchar[ 1
+]  u8x @calculatedFrom( ""`tick`""
+) , }
+    options
+{ } packet crc {// a // b
+@lengthOf(leftPad ) @tag( 7
+    )//	t
+@lengthOf(
+options1  )
+int32 asx , @rightPad
+( )
+pack roots , string
+a1
+    `say ""hi""` , match body
+    // packet A { u8 x, }
+    as matchKey
+    {[
+""`tick`""
+    // @lengthOf(
+    ]:	string_
+    },
+    //	t
+    repeat uint16 Packet , repeat uint8 i64_ , @lengthOf( Pad	) /// triple
+A // trailing space 
+`// not a comment` ,
+char[]u8x
+    , repeat
+    char[ 007 ] pack	, A
+    { // " ++ [27880; 37322]%N ++ runes_of_ascii "
+x { string
+    uint8x @lengthOf( leftPad  )`say ""hi""` // packet A { u8 x, }
+,Packet T
+// `tick` ""quote"" 'q'
+// c
+, As @lengthOf(
+// " ++ [27880; 37322]%N ++ runes_of_ascii "
+// c
+string_ ) `// not a comment` , }, char[] _x@lengthOf(
+o )
+    // 50% %s
+    ,
+    len x , },
+    //
+    }
+")).
+Eval vm_compute in ("<<<M1872>>>" ++ check (runes_of_ascii "//	t
+packet MetaDataX {
+    @leftPad()
+    repeat float64 asx,
+}
+
+MetaData Foo {
+    // a // b
+    char[65535] Pad,
+}
+
+packet body {
+    match asx as charz {
+        // `tick` ""quote"" 'q'
+        10 : u8x,
+        ""it's"" : leftPad,
+        3 : metadata,
+        ""it's"" : x,
+        [65535, """ ++ [233]%N ++ runes_of_ascii "t" ++ [233]%N ++ runes_of_ascii """] : u128,
+        10 : len,
+    },
+    repeat f32 rootA ``,// 50% %s
+    @leftPad(' ')
+    repeat i64 BodyLength,
+    repeatCount {
+        i16 crc @lengthOf(u128),
+    },
+    u16 u @lengthOf(f32a) `// not a comment`,// trailing space 
+    len {
+        match Logon as Foo {
+            """ ++ [233]%N ++ runes_of_ascii "t" ++ [233]%N ++ runes_of_ascii """ : stringy,
+            10 : msg_type,
+            //	t
+            [
+                ""\n"", ""`tick`"", ""abc"", """", 007,
+                1, ""a\""b""
+            ] : i64_,
+            255 : T,
+            ""{,}"" : f32a,
+        },
+        string tag @lengthOf(Z9_),
+        // a // b
+        u32 charz `crlf
+                line`,
+        u8x @lengthOf(rootA),
+    },
+    float,
+    int8 repeatCount @lengthOf(f32a) `crlf
+        line`,
+    zchar[7] BodyLength @lengthOf(string_),
+}
+
+packet u128 {
+    x `// not a comment`,
+}//
+
+packet x {
+    A `doc`,
+    Packet @calculatedFrom(""\" ++ [233]%N ++ runes_of_ascii """) `say ""hi""`,
+    repeat string asx,
+    @lengthOf(MetaDataX)
+    repeat char[4294967296] string_ `u8 x,`,
+    @lengthOf(charz)
+    char[0123456789] f32a `say ""hi""`,
+}")).
+Eval vm_compute in ("<<<M1607>>>" ++ check (runes_of_ascii "
+
+  root packet u8x { body @lengthOf( 
+i64_ )
+	`` ,@lengthOf(Foo)
+
+    //x
+// `tick` ""quote"" 'q'
+  string_ 
+@lengthOf( int ),
+@lengthOf(
+
+rootA	//	t
+	)@tag(255 // c
+
+	)	match Logon
+
+as
+    roots
+
+    { 1
+:
+
+    x_y_z
+
+,} ,}	packet	len  {@tag(	0123456789
+) 
+@leftPad
+	( 
+'\x00'
+
+    ) i8i8 { 
+
+//x
 // @lengthOf(
-int
+len
+	`u8 x,` 
+,	}  ,	@tag(
+0123456789	// 50% %s
+)	u8x 
+A, 
+char[007
+] int  ,
+@leftPad(
+'\x00' )
+
+    float64 len
+`100% of %d` ,
+
+    }packet
 
 crc
+{
+	// `tick` ""quote"" 'q'
+	  // `tick` ""quote"" 'q'
 
-    , }//	t")).
-Eval vm_compute in ("<<<M1170>>>" ++ check (runes_of_ascii "MetaData leftPad { chars MetaDataX , } packet repeatCount { char[ 255 ] uint8x
-// c
-`" ++ [233]%N ++ runes_of_ascii "` , } MetaData pack { As Foo , }")).
-Eval vm_compute in ("<<<M1820>>>" ++ check (runes_of_ascii "packet
+match
+	calculatedFrom	as leftPad 
+{ [	// packet A { u8 x, }
 
-    FooBar{
-	u8
-	a
+""" ++ [233]%N ++ runes_of_ascii "t" ++ [233]%N ++ runes_of_ascii """  ]
+:
+Foo ""1""
+:  Packet  , 1 : stringy
+
+    [ 4294967296 
+
+    // c
+	  , 
+""a	b"" ]:	leftPad
 
     ,
 
+[
+
+""" ++ [233]%N ++ runes_of_ascii "t" ++ [233]%N ++ runes_of_ascii """
+    ,
+
+"""",
+4294967296 , 0123456789,4294967296 ,  ""CRC32""
+	,
+    0123456789
+    , """"]
+
+:
+    rootA 
+}
+, 
+@rightPad
+    (	)
+
+roots
+{	As 	 //x
+		, repeat
+zchar[
+1 ]
+    falsey
+,repeat  char[]
+
+repeatCount ,
+    }//	t
+		, roots `a\`,	match  charz
+
+    as	i8i8{ [
+
+    ""\" ++ [233]%N ++ runes_of_ascii """,	""" ++ [233]%N ++ runes_of_ascii "t" ++ [233]%N ++ runes_of_ascii """ ]
+
+: 
+  // c
+	// @lengthOf(
+  o // @lengthOf(
+, 
+42 :
+
+matchKey
+	,
+00:
+
+    body, ""a\\""
+	:	rootA
+,
+} ,
+}
+
+")).
+Eval vm_compute in ("<<<M1368>>>" ++ check (runes_of_ascii "  options {LittleEndian	=true;
+StringPrefixLenType
+
+=
+
+    u16 ; ArrayPrefixLenType 
+=
+	u8
+; FixedStringPadChar  =' '
+    ; 
 }packet
 
-foo_bar
-{  u16
-	b 
-, } root packet R {FooBar, foo_bar
+Ack
+
+    {
+
+@leftPad	(
+' ')char[
+5 ] lastPx 
+,
+zchar[	4 ]	count
+
+    ,  repeat InVenue30  {
+char[ 
+9 ]  Side2 ,
+    char[ 12 ]  venue
+,
+}
+
+    , } 
+packet
+	Order	{ int16
+    Note,  repeat	InAcct28
+    {	InSym3
+
+    { Ack ,char[  4]lastPx,
+    char[
+
+    1] venue , f32  Ref,	}, 
+repeat
+InTag729
+
+{char[
+	3 
+] Side2
+    ,
+
+uint64 Acct 
+,
+	char[] price
+    ,zchar[
+9 ]
+    Note
+
+    ,
+
+    zchar[9]
+    venue
+    ,
+},char[]
+count,
+Ack ,
+char[] Px, } ,u8
+	f1,
+Ack , 
+} packet
+
+    Fill{	zchar[7
+
+] 
+x
+,Order
+
+,
+
+    @leftPad  (
+' '
+) char[
+	9 ]
+
+    venue
+, 
+string	count 
+,	char[]  Flags
+, }	packet 
+Logon{
+    }	packet
+    Reject
+    { Order , char[]
+sym,
+}
+root packet Quote {string price
+
+,i64 Flags ,
+	repeat
+
+Fill
+,
+zchar[
+	9]
+x
+, f32 lastPx ,
+    repeat
+
+    Ack
+	, }
+")).
+Eval vm_compute in ("<<<M1917>>>" ++ check (runes_of_ascii "
+root packet// packet A { u8 x, }
+		i8i8
+    { @rightPad
+( 	 // 50% %s
+		)
+	char[]	i64_  ,string
+
+f32a @calculatedFrom(
+    ""a\""b"" )
+    // @lengthOf(
+	// packet A { u8 x, }
+,
+
+@tag(
+255
+)
+@calculatedFrom(
+""a	b"" ) @lengthOf(	u128	) match
+float
+
+    as
+metadata
+    {""\" ++ [233]%N ++ runes_of_ascii """
+
+    :  x_y_z	, 10
+: 
+
+// `tick` ""quote"" 'q'
+// `tick` ""quote"" 'q'
+	Packet
+	,
+
+    """"
+	:
+asx ,
+	} ,@lengthOf(asx
+	) 	 /// triple
+match matchKey 
+// trailing space 
+		// c
+as
+Foo{ 
+""// no comment""
+
+    :	trueish	42 : len,
+42:
+
+    options1
+
+    ""x y""  :
+	x_y_z
+	""CRC32""
+
+    // a // b
+  // packet A { u8 x, }
+:
+	zchar
+0123456789 
+:pack , }
 
     , }
-")).
-Eval vm_compute in ("<<<M489>>>" ++ check (runes_of_ascii "packet uint8x
-{ match pack
-    as msg_type	{
-    0123456789 :	float
-}
+MetaData
+crc{
+string
+    repeatCount ,  //	t
+      char[]
+a1	, 
+// 50% %s
+      // `tick` ""quote"" 'q'
+
+char 
+msg_type	, pack rootA  ,
+    u64
+Pad ,}")).
+Eval vm_compute in ("<<<M14>>>" ++ check (runes_of_ascii "
+packet Pad { @calculatedFrom( ""x y"") repeat f64 x
+`tab	here`, @rightPad
+    ( ) char[]
+float@calculatedFrom(
+""" ++ [233]%N ++ runes_of_ascii "t" ++ [233]%N ++ runes_of_ascii """ ) ,match uint8x as
+falsey//x
+{ ""CRC32""
+:
+    leftPad } ,@tag(
+    //	t
+    10 )
+    repeat Pad {
+    // " ++ [128512]%N ++ runes_of_ascii " emoji
+    zchar[42 ] uint8x@lengthOf( o)
 ,
-} packet //	t
-a1
-    { } options")).
-Eval vm_compute in ("<<<M1708>>>" ++ check (runes_of_ascii "root packet
-    SimpleMessage	{
+// `tick` ""quote"" 'q'
+//x
+i16 x_y_z , stringy
+    @calculatedFrom(
+""`tick`""
+) `a\` ,}, Header// c
+repeatCount ,
+i64_	, @lengthOf( //x
+uint8x
+    ) match options1 as BodyLength
+{ 0
+    :
+    chars //x
+, 255: BodyLength 0123456789
+    :Foo
+    , [ 65535
+    , 42 , 42 ,
+    65535 ,
+255// " ++ [27880; 37322]%N ++ runes_of_ascii "
+, 1
+    // @lengthOf(
+    , ""1"",
+""\n""] : pack
+} , repeat
+    i8i8 msg_type , @lengthOf(f32a	) // @lengthOf(
+T BodyLength
+, }
+")).
+Eval vm_compute in ("<<<M238>>>" ++ check (runes_of_ascii "packet _x{zchar[ 65535 ]  metadata `crlf
+line` , @calculatedFrom( ""CRC32"") Header
+    `doc` //x
+,
+    match f32a as msg_type{
+    [
+    ""\n"" ] // `tick` ""quote"" 'q'
+:	charz
+0123456789
+:pack , [ ""packet""	, """" , ""`tick`""// " ++ [128512]%N ++ runes_of_ascii " emoji
+, // `tick` ""quote"" 'q'
+""CRC32"" , ""\n""
+    // @lengthOf(
+    , ""it's""
+, ""it's""
+,
+// @lengthOf(
+//x
+4294967296 ] : charz /// triple
+42
+:// @lengthOf(
+leftPad ,
+[
+    // 50% %s
+    255 ,7,  ""packet""
+    ,
+""{,}"" , ""\" ++ [233]%N ++ runes_of_ascii """
+, ""1"" ,
+    ""1""] // " ++ [27880; 37322]%N ++ runes_of_ascii "
+:	msg_type, [ """ ++ [128512]%N ++ runes_of_ascii """
+]: //
+i64_ }
+,
+repeat
+u8x
+    body , } MetaData
+roots {	u8x packetx `two words` , // trailing space 
+}")).
+Eval vm_compute in ("<<<M1936>>>" ++ check (runes_of_ascii "
+MetaData	u128  { 
+}
+MetaData
 
-    uint16
-MsgType 
-`" ++ [28040; 24687; 31867; 22411]%N ++ runes_of_ascii "`
+    a1
 
-    , string
+    { }  // " ++ [128512]%N ++ runes_of_ascii " emoji
+	root packet 
+o
+	{
+	char[
+	10 
+]	stringy @lengthOf(
+/// triple
 
-JsonBody	`Json" ++ [23383; 31526; 20018; 28040; 24687; 20307]%N ++ runes_of_ascii "`,}")).
-Eval vm_compute in ("<<<M1304>>>" ++ check (runes_of_ascii "
-packet order_item
+	// 50% %s
+  	Z9_	//	t
+    	)
+, match	x_y_z
+as 
+stringy
+    { 
+3:
+	float,
+    }
+,  @leftPad
 
-{  u8
-a
+    (
+' '
+)
+u128  { repeat  i32	msg_type
+	`it's` ,
+    x ,
+	repeat 
+char[	//
+	65535 ]
+T 
+,
 
-    , } root
+match
+A as
+i8i8{ """ ++ [128512]%N ++ runes_of_ascii """ : 
+Logon
+,
+},
+    }
+	,	}MetaData	x_y_z
+
+    { // @lengthOf(
+	options1	a1
+
+, u8x
+    x_y_z	`tab	here`  ,
+
+    char
+    MetaDataX
+,	// " ++ [27880; 37322]%N ++ runes_of_ascii "
+zchar[ 65535
+]
+chars ,
+char[]  crc  `doc`  ,
+}
+")).
+Eval vm_compute in ("<<<M128>>>" ++ check (runes_of_ascii "packet asx {u32
+asx,char[ 0123456789	] crc
+@calculatedFrom( ""1""
+    ) `{ , }`  ,  @tag(
+    42
+)
+@tag( 7 )
+    msg_type{asx @calculatedFrom( ""a	b""
+    )`it's` , },
+@calculatedFrom(	""\n"" ) // " ++ [128512]%N ++ runes_of_ascii " emoji
+char[ 3
+] float
+    ,zchar[	4294967296
+]
+zchar	,@lengthOf( roots)
+i16
+int @lengthOf(
+i64_ )
+, i16 pack
+    @lengthOf(
+    u128 )
+    , @lengthOf(
+    // 50% %s
+    msg_type ) char[] A , repeat	char[]tag`a\` ,
+}
+//	t
+// @lengthOf(
 packet
+pack
+    { u	@lengthOf(
+    a1
+    )	`say ""hi""`, }
+//	t
+")).
+Eval vm_compute in ("<<<M1802>>>" ++ check (runes_of_ascii "
+options{
 
-    new_order{ order_item
-	,  u8
-x ,
+    ArrayPrefixLenType
+=
+    u64
+;
+FixedStringPadFromLeft
+    =  true	; FixedStringPadChar
+	= '0'	;
 
+    } packet Order { 
+} root  packet Leg { char[]
+
+Ref 
+,	repeat
+Order	, f32
+Acct, @leftPad
+(
+
+'0'	)
+char[ 
+10
+
+    ]	venue 
+,  @rightPad  ( 
+'0'
+	)  char[ 3
+
+]
+seqNo ,repeat u64	Px ,
+
+    u8
+	Flags 
+,
+    u32
+lastPx @lengthOf(
+Body ) 
+, match
+
+    Flags as Body {
+
+185 :
+Order 
+,  }  , u16
+	sym @calculatedFrom( ""CR\
+C32"")
+    ,	} ")).
+Eval vm_compute in ("<<<M1976>>>" ++ check (runes_of_ascii "options
+	{ } 
+root
+	packet chars
+    {@rightPad
+
+    ( '0' 
+)	chars
+f32a
+
+    `say ""hi""`
+
+,
+int16  u8x ,
+
+    @tag( 4294967296
+	)
+
+    @rightPad	// packet A { u8 x, }
+	( 
+)
+u64
+
+packetx
+@calculatedFrom(""it's""
+
+)	,
+
+    @calculatedFrom( 
+  // `tick` ""quote"" 'q'
+  	""\n"" )
+	o@calculatedFrom(
+    ""a\""b"" 
+)
+	,
+    Logon	@lengthOf(BodyLength),}
+options 
+{
+} MetaData 
+zchar  { u64
+MetaDataX`// not a comment`,  }")).
+Eval vm_compute in ("<<<M253>>>" ++ check (runes_of_ascii "packet // a // b
+u8x  {// trailing space 
+repeat roots{ zchar[ 42
+]
+// 50% %s
+// a // b
+u@lengthOf( i64_)  `line1
+line2`
+, f64 Packet
+`` , zchar[
+    4294967296 ]
+msg_type ,
+}, }root packet rootA{
+    @calculatedFrom( ""// no comment""
+)  @calculatedFrom(// " ++ [128512]%N ++ runes_of_ascii " emoji
+""" ++ [233]%N ++ runes_of_ascii "t" ++ [233]%N ++ runes_of_ascii """ ) match	body
+    as Foo
+    /// triple
+    {  10 :
+a1} , @tag( 42 )@calculatedFrom( ""1"" )
+repeat int64 float  `u8 x,` ,}
+")).
+Eval vm_compute in ("<<<M1463>>>" ++ check (runes_of_ascii "  MetaData // 50% %s
+
+	body {Foo Packet
+`a\`  , T float
+	, 
+int64
+Logon`// not a comment` ,zchar[
+0  ] i64_ /// triple
+
+`" ++ [28040; 24687; 31867; 22411]%N ++ runes_of_ascii "` 
+, 	 // `tick` ""quote"" 'q'
+    char[	7  // @lengthOf(
+]  calculatedFrom	,  int16 Logon
+
+, }  MetaData
+i64_{int	//
+  leftPad
+
+`// not a comment`
+
+    , trueish
+	Logon ,
+    string	Header
+
+    `doc`
+
+,  // packet A { u8 x, }
+
+}")).
+Eval vm_compute in ("<<<M241>>>" ++ check (runes_of_ascii "MetaData A { u32 charz `doc` , // 50% %s
+char[ 255 ] packetx ,uint64
+f32a `" ++ [233]%N ++ runes_of_ascii "` ,
+x Packet  `{ , }`
+,}MetaData BodyLength {	zchar[ 007
+] Packet ,
+    BodyLength leftPad ,char	packetx , zchar[ 3 ]
+    // @lengthOf(
+    _x // trailing space 
+, string i8i8 ,
+} MetaData MetaDataX	{	metadata BodyLength
+/// triple
+// 50% %s
+`doc` , }
+")).
+Eval vm_compute in ("<<<M298>>>" ++ check (runes_of_ascii "// trailing space 
+options { MetaDataX =	zchar[	3
+    ] ; packetx = true u128= ""\" ++ [233]%N ++ runes_of_ascii """
+    // packet A { u8 x, }
+    ; x = 1 x
+= true;  } MetaData u8x  { float64 leftPad  , a1
+As `it's` , int16 // a // b
+metadata
+, As Packet
+    `100% of %d`, leftPad uint8x
+`it's` , As
+Foo, // 50% %s
+}
+")).
+Eval vm_compute in ("<<<M1721>>>" ++ check (runes_of_ascii "packet P1 {
+    u8 a,
 }
 
-")).
-Eval vm_compute in ("<<<M624>>>" ++ check (runes_of_ascii "
-packet
-    asx {match u128 as lengthOf
-{
-//	t
-// `tick` ""quote"" 'q'
-255 : x ,
-    } ,	repeat")).
-Eval vm_compute in ("<<<M588>>>" ++ check (runes_of_ascii "
-packet
-    asx {match u128 as lengthOf
-{ {
-//	t
-// `tick` ""quote"" 'q'
-255 : x ,
-    } ,	}")).
-Eval vm_compute in ("<<<M281>>>" ++ check (runes_of_ascii "
-packet
-    o	{  }
-packet
-Pad {
-BodyLength // trailing space 
-, } packet metadata //x
-{}")).
-Eval vm_compute in ("<<<M850>>>" ++ check (runes_of_ascii "packet A {
-  match k as n {
-    [""a"", ""bb"", 007, ""d"", ""e"", 66, ""g""] : B
-    2 : C
-  },
+packet P2 {
+    P1,
+}
+
+packet P3 {
+    P2,
+    P1,
+}
+
+packet P4 {
+    repeat P3,
+    P2,
+}
+
+root packet P5 {
+    P4,
+    P3,
+    P1,
+    u8 K,
+    match K as Body {
+        4 : P4,
+        3 : P3,
+        2 : P2,
+        1 : P1,
+    },
 }")).
-Eval vm_compute in ("<<<M1544>>>" ++ check (runes_of_ascii "
-// top
-  MetaData 
-	// c0
-    tag 
-    // c1
-      {
-// c2
-      }
-        // c3
-")).
-Eval vm_compute in ("<<<M848>>>" ++ check (runes_of_ascii "packet A {
-  match k as n {
-    [1, 22, ""c c"", 4, 5, ""f"", 7] : B
-    2 : C
-  },
-}")).
-Eval vm_compute in ("<<<M125>>>" ++ check (runes_of_ascii "//	t
-options {
-    roots  =  ""\n""	; o
+Eval vm_compute in ("<<<M482>>>" ++ check (runes_of_ascii "packet
+    asx { @calculatedFrom(
+""""  ) @tag( 255 )repeat
+// packet A { u8 x, }
+// trailing space 
+int16 u8x
+,
+@tag(
     //
-    = '0' ;
-tag
-    =true
-    }")).
+    007 )
+    @tag( 0
+    /// triple
+    ) @tag( @tag( 1) u
+    @lengthOf( T ),
+// `tick` ""quote"" 'q'
+//x
+} // " ++ [128512]%N ++ runes_of_ascii " emoji")).
+Eval vm_compute in ("<<<M512>>>" ++ check (runes_of_ascii "packet
+    asx { @calculatedFrom(
+""""  ) @tag( 255 )repeat
+// packet A { u8 x, }
+// trailing space 
+int16 u8x
+,
+@tag(
+    //
+    007 )
+    @tag( 0
+    /// triple
+    ) @tag( 1) u
+    @lengthOf( T ) ),
+// `tick` ""quote"" 'q'
+//x
+} // " ++ [128512]%N ++ runes_of_ascii " emoji")).
+Eval vm_compute in ("<<<M448>>>" ++ check (runes_of_ascii "packet
+    asx { @calculatedFrom(
+""""  ) @tag( 255 )repeat
+// packet A { u8 x, }
+// trailing space 
+int16 u8x
+@tag(
+,
+    //
+    007 )
+    @tag( 0
+    /// triple
+    ) @tag( 1) u
+    @lengthOf( T ),
+// `tick` ""quote"" 'q'
+//x
+} // " ++ [128512]%N ++ runes_of_ascii " emoji")).
+Eval vm_compute in ("<<<M476>>>" ++ check (runes_of_ascii "packet
+    asx { @calculatedFrom(
+""""  ) @tag( 255 )repeat
+// packet A { u8 x, }
+// trailing space 
+int16 u8x
+,
+@tag(
+    //
+    007 )
+    @tag( 0
+    /// triple
+     @tag( 1) u
+    @lengthOf( T ),
+// `tick` ""quote"" 'q'
+//x
+} // " ++ [128512]%N ++ runes_of_ascii " emoji")).
+Eval vm_compute in ("<<<M1302>>>" ++ check (runes_of_ascii "// top
+root // c0
+packet // c1
+P // c2a
+  // c2b
+{ // c3a
+  // c3b
+u8 // c4a
+  // c4b
+s_u8 // c5a
+  // c5b
+, repeat
+    // c7
+u8 // c8a
+  // c8b
+r_u8 // c9a
+  // c9b
+,
+    // c10
+u16
+    // c11
+b_len // c12
+, // c13a
+  // c13b
+} ")).
+Eval vm_compute in ("<<<M1516>>>" ++ check (runes_of_ascii "  packet
+    Pad{  /// triple
+    trueish
+    {
+    uint16
+    Packet	@lengthOf(
+    i8i8
+    )
+
+`" ++ [28040; 24687; 31867; 22411]%N ++ runes_of_ascii "`
+    , Logon	,
+
+    repeat	// `tick` ""quote"" 'q'
+zchar[	255 ]
+	f32a
+	`say ""hi""`
+, }	,
+	    //	t
+	} ")).
+Eval vm_compute in ("<<<M1322>>>" ++ check (runes_of_ascii "options {
+    FixedStringPadChar = '0';
+}
+packet Q {
+    zchar[4] z,
+    @rightPad('\x00') char[3] n,
+    char[5] d,
+}
+root packet R {
+    Q,
+    zchar[8] top,
+    repeat zchar[2] zs,
+}
+")).
+Eval vm_compute in ("<<<M1431>>>" ++ check (runes_of_ascii "MetaData u {
+}
+
+MetaData o {
+    float uint8x `100% of %d`,
+    repeatCount u8x,
+    string_ leftPad,
+    i32 Foo,
+    int64 x `two words`,
+    stringy calculatedFrom `a\`,
+}")).
+Eval vm_compute in ("<<<M1345>>>" ++ check (runes_of_ascii "  packet u128
+{
+	u8 a
+
+,}
+    root packet
+Msg	{
+    u8 k  ,
+    u24
+	{
+
+u8 Hi
+	, 
+u16
+
+    Lo
+	,  }
+    ,repeat i24{u32 q , } , u128  ,u16
+	float32x
+	, string
+	s,	}
+")).
+Eval vm_compute in ("<<<M1483>>>" ++ check (runes_of_ascii "packet asx {
+    @calculatedFrom("""")
+    @tag(255)
+    repeat int16 u8x,
+    @tag(007)
+    @tag(0)
+    @tag(1)
+    u @lengthOf(T),
+    // `tick` ""quote"" 'q'
+    //x
+}")).
+Eval vm_compute in ("<<<M628>>>" ++ check (runes_of_ascii "MetaData u
+    { } MetaData o
+{ float uint8x
+`100% of %d` ,repeatCount u8x, string_ leftPad
+i32 ,
+    Foo , int64 x `two words` , calculatedFrom
+stringy `a\` ,
+}
+")).
+Eval vm_compute in ("<<<M721>>>" ++ check (runes_of_ascii "packet
+crc
+{repeat  Foo A  `u8 x,` ,	@lengthOf( uint8x ) string
+matchKey @lengthOf( stringy ) `a\`
+,
+    // c
+    }
+MetaData chars{
+leftPad
+    //	t
+    crc
+`" ++ [233]%N ++ runes_of_ascii "`")).
+Eval vm_compute in ("<<<M691>>>" ++ check (runes_of_ascii "MetaData u
+    { } MetaData o
+{ float uint8x
+`100% of %d` ,repeatCount u8x, string_ leftPad
+, i32
+    Foo , int64 x `two words` , calculatedFrom
+stringy `a")).
+Eval vm_compute in ("<<<M1780>>>" ++ check (runes_of_ascii "packet Inner {
+    // c2a
+    // c2b
+    u8 a,
+    // c5
+}// c6a
+
+// c6b
+root packet P {
+    repeat Inner items,// c14a
+    // c14b
+    u8 x,
+}
+// c18")).
+Eval vm_compute in ("<<<M1655>>>" ++ check (runes_of_ascii "MetaData uint8x {
+    char msg_type `two words`,
+    char[3] chars `say ""hi""`,
+    zchar[007] zchar,
+    // " ++ [128512]%N ++ runes_of_ascii " emoji
+}// `tick` ""quote"" 'q'")).
+Eval vm_compute in ("<<<M247>>>" ++ check (runes_of_ascii "root	packet
+f32a { float32 // packet A { u8 x, }
+pack`// not a comment`, // `tick` ""quote"" 'q'
+}
+packet
+chars{
+//	t
+// " ++ [128512]%N ++ runes_of_ascii " emoji
+}")).
+Eval vm_compute in ("<<<M1426>>>" ++ check (runes_of_ascii "packet A {
+    u16 len @lengthOf(body) `x
+        `,
+    u32 crc @calculatedFrom(""CRC32"") `x
+        `,
+    string body,
+}")).
+Eval vm_compute in ("<<<M1250>>>" ++ check (runes_of_ascii "options { } options { MetaDataX = char ; } MetaData Pad { i8 metadata , string stringy , int8 As `{ , }` , }
+// c
+")).
+Eval vm_compute in ("<<<M1229>>>" ++ check (runes_of_ascii "options { } options { MetaDataX = char ; } MetaData Pad { i8 // c
+metadata , string stringy , int8 As `{ , }` , }")).
+Eval vm_compute in ("<<<M923>>>" ++ check (runes_of_ascii "packet A {
+    u16 len @lengthOf(body) `a
+b`,
+    u32 crc @calculatedFrom(""CRC32"") `a
+b`,
+    string body,
+}")).
+Eval vm_compute in ("<<<M1287>>>" ++ check (runes_of_ascii "options {
+    LittleEndian = true;
+}
+root packet P {
+    u16 a,
+    u32 Sum @calculatedFrom(""CRC32""),
+}
+")).
+Eval vm_compute in ("<<<M948>>>" ++ check (runes_of_ascii "packet A {
+    Inner {
+        u8 x `x
+`,
+        Deep {
+            u8 y `x
+`,
+        },
+    },
+}")).
+Eval vm_compute in ("<<<M1822>>>" ++ check (runes_of_ascii "  packet Foo
+    {
+	float64
+a1 , 
+string
+
+Z9_ @lengthOf( Logon)
+`line1
+line2` , } 
+// " ++ [128512]%N ++ runes_of_ascii " emoji
+")).
+Eval vm_compute in ("<<<M1265>>>" ++ check (runes_of_ascii "
+
+  packet 
+Inner {u8  a	,  }  root
+
+    packet
+P  {  repeat
+Inner
+
+items
+    ,	u8	x
+, }
+")).
+Eval vm_compute in ("<<<M1882>>>" ++ check (runes_of_ascii "// `tick` ""quote"" 'q'
+options {
+    stringy = ""\" ++ [233]%N ++ runes_of_ascii """
+    float = """ ++ [233]%N ++ runes_of_ascii "t" ++ [233]%N ++ runes_of_ascii """
+    trueish = u8
+}")).
+Eval vm_compute in ("<<<M1286>>>" ++ check (runes_of_ascii "
+options{
+	FixedStringPadFromLeft =	true  ; }root 
+packet
+P
+{  char[	4 ]
+z
+	,
+}
+")).
+Eval vm_compute in ("<<<M837>>>" ++ check (runes_of_ascii "packet A {
+  match k as n {
+    [1, 22, 007, 4, 5, 66, 7] : B,
+    2 : C
+  },
+}")).
+Eval vm_compute in ("<<<M101>>>" ++ check (runes_of_ascii "MetaData
+    u128
+    {matchKey i64_
+    , BodyLength T ,	msg_type body, }")).
 Eval vm_compute in ("<<<M806>>>" ++ check (runes_of_ascii "packet A {
   match k as n {
-    [""a"", 22, ""c c"", 4] : B,
+    [1, 22, ""c c"", 4] : B,
     2 : C
   },
 }")).
-Eval vm_compute in ("<<<M449>>>" ++ check (runes_of_ascii "packet uint8x
-{ match pack
-    as msg_type	{
-    0123456789 :	float")).
-Eval vm_compute in ("<<<M1955>>>" ++ check (runes_of_ascii "
-packet	A
-
-{ u8 
-x ,
-
-}// a
-	// b
-packet	B{
-}	// c
-      // d
-")).
-Eval vm_compute in ("<<<M1222>>>" ++ check (runes_of_ascii "// top
-packet
-    // c0
-x
-    // c1
-{
+Eval vm_compute in ("<<<M785>>>" ++ check (runes_of_ascii "packet A {
+  match k as n {
+    [1, 22, 007] : B,
+    2 : C
+  },
+}")).
+Eval vm_compute in ("<<<M375>>>" ++ check (runes_of_ascii "// a // b
+MetaData//x
+repeatCount {
+string uint8x ,
+    } 	 ")).
+Eval vm_compute in ("<<<M797>>>" ++ check (runes_of_ascii "packet A { Inner { match k as n { [1,22,007] : B, }, }, }")).
+Eval vm_compute in ("<<<M1666>>>" ++ check (runes_of_ascii "MetaData M {
+    u8 x `
+    x`,
+    T t `
+    x`,
+}")).
+Eval vm_compute in ("<<<M595>>>" ++ check (runes_of_ascii "MetaData u
+    { } MetaData o
+{ float uint8x")).
+Eval vm_compute in ("<<<M1409>>>" ++ check (runes_of_ascii "// top
+MetaData tag {
     // c2
 }
-    // c3
-")).
-Eval vm_compute in ("<<<M1752>>>" ++ check (runes_of_ascii "root
-packet
-	P {
-    char
-	c
-
-, 
-u8
-
-    x  ,
+// c3")).
+Eval vm_compute in ("<<<M1087>>>" ++ check (runes_of_ascii "options { a = 1 // c b = 2; // d}")).
+Eval vm_compute in ("<<<M713>>>" ++ check (runes_of_ascii "packet
+crc
+{repeat  Foo A  `u8 x,`")).
+Eval vm_compute in ("<<<M1801>>>" ++ check (runes_of_ascii "packet A {
+    u8 x `d" ++ [8203]%N ++ runes_of_ascii "`,// c" ++ [8203]%N ++ runes_of_ascii "
+}")).
+Eval vm_compute in ("<<<M921>>>" ++ check (runes_of_ascii "packet A {
+    u8 x `a
+b`,
+}")).
+Eval vm_compute in ("<<<M1571>>>" ++ check (runes_of_ascii "// c
+  root
+packet a1{
+	}")).
+Eval vm_compute in ("<<<M335>>>" ++ check (runes_of_ascii "//	t
+packet x {
     }
 ")).
-Eval vm_compute in ("<<<M1210>>>" ++ check (runes_of_ascii "packet body { i32 f32a `{ , }`
-// c
-, } options { }")).
-Eval vm_compute in ("<<<M756>>>" ++ check (runes_of_ascii "zchar ( : f64 ) , repeat f32 u16 float64 , ; :")).
-Eval vm_compute in ("<<<M337>>>" ++ check (runes_of_ascii "//	t
-options
-// c
-// " ++ [128512]%N ++ runes_of_ascii " emoji
-{
-    } // c")).
-Eval vm_compute in ("<<<M1068>>>" ++ check (runes_of_ascii "options { a = 1 // c b = 2; // d}")).
-Eval vm_compute in ("<<<M85>>>" ++ check (runes_of_ascii "options// c
-{MetaDataX =int16 }
-")).
-Eval vm_compute in ("<<<M983>>>" ++ check (runes_of_ascii "packet A {
- u8 x `d" ++ [12288]%N ++ runes_of_ascii "`, // c" ++ [12288]%N ++ runes_of_ascii "
+Eval vm_compute in ("<<<M996>>>" ++ check (runes_of_ascii "// c 
+packet A {
 }")).
-Eval vm_compute in ("<<<M419>>>" ++ check (runes_of_ascii "packet uint8x
-{ match pack")).
-Eval vm_compute in ("<<<M326>>>" ++ check (runes_of_ascii "  options{// a // b
-}
-
-")).
-Eval vm_compute in ("<<<M1108>>>" ++ check (runes_of_ascii "MetaData tag
-// c
-{ }")).
-Eval vm_compute in ("<<<M112>>>" ++ check (runes_of_ascii "packet falsey { }
-")).
-Eval vm_compute in ("<<<M1051>>>" ++ check (runes_of_ascii "packet A {
-}
-// c" ++ [65279]%N)).
-Eval vm_compute in ("<<<M1082>>>" ++ check (runes_of_ascii "options { // a
- }")).
-Eval vm_compute in ("<<<M740>>>" ++ check (runes_of_ascii ", = , ; int16")).
-Eval vm_compute in ("<<<M1000>>>" ++ check (runes_of_ascii "// c" ++ [8192]%N)).
-Eval vm_compute in ("<<<M731>>>" ++ check (runes_of_ascii "/")).
+Eval vm_compute in ("<<<M1078>>>" ++ check (runes_of_ascii "packet A {
+}// c x")).
+Eval vm_compute in ("<<<M1171>>>" ++ check (runes_of_ascii "packet x { // c
+}")).
+Eval vm_compute in ("<<<M712>>>" ++ check (runes_of_ascii "packet
+crc")).
+Eval vm_compute in ("<<<M724>>>" ++ check (runes_of_ascii "
+	 ")).
